@@ -268,21 +268,21 @@ func finish(prop, tier string, seed int64, ps *PropSpec, l *loaded, results []*H
 		cov := map[string]interface{}{
 			"states": totStates, "transitions": totTrans, "traces_validated_against_impl": nValidated, "samples": sampleOut,
 			"evaluations": totStates, "distinct_nontrivial": totStates,
-			"rule":               "one evaluation = one feasible path of a harness through the real SSA (distinct decision lists; each stands for all inputs satisfying its path condition); all are non-trivial: each ends in the harness assertions being discharged by the solver",
-			"exhaustive":         !incomplete && totUnk == 0 && totInc == 0,
-			"functions_encoded":  fl,
-			"harnesses":          hsums,
-			"queries":            map[string]interface{}{"total": totQueries, "unknown_feasibility": totUnk, "unknown_property": totInc},
-			"solver":             "z3 4.8.12 (z3 -in, no set-logic)",
-			"solver_time_s":      round2(totSolver),
-			"stubs_used":         st,
-			"outside_claim":      ps.Outside,
+			"rule":                          "one evaluation = one feasible path of a harness through the real SSA (distinct decision lists; each stands for all inputs satisfying its path condition); all are non-trivial: each ends in the harness assertions being discharged by the solver",
+			"exhaustive":                    !incomplete && totUnk == 0 && totInc == 0,
+			"functions_encoded":             fl,
+			"harnesses":                     hsums,
+			"queries":                       map[string]interface{}{"total": totQueries, "unknown_feasibility": totUnk, "unknown_property": totInc},
+			"solver":                        "z3 4.8.12 (z3 -in, no set-logic)",
+			"solver_time_s":                 round2(totSolver),
+			"stubs_used":                    st,
+			"outside_claim":                 ps.Outside,
 			"known_finding_regions_entered": kfSeen,
 			"known_findings_printed":        len(knownPrinted),
 			"violations_reproduced":         nViol,
 			"engine_mismatches":             nMismatch,
 			"errors":                        errorsOut,
-			"explanation":        "bounded symbolic execution of the real code: encoding regenerated from /repo's working tree on this run via go/packages+go/ssa; inputs are solver variables; every branch, panic condition and assertion is decided by z3 over the path condition",
+			"explanation":                   "bounded symbolic execution of the real code: encoding regenerated from /repo's working tree on this run via go/packages+go/ssa; inputs are solver variables; every branch, panic condition and assertion is decided by z3 over the path condition",
 		}
 		level := ps.Level
 		if level == "" {
